@@ -81,7 +81,7 @@ class C14(object):
     time_keys = {"steps": "scheduler steps (one per instrumented access, GOMP entry or allocator call)"}
     fault_keys = ["switches", "realloc_moved", "realloc_stay", "alloc", "free", "parallel_runs", "np_empty_garbage_buffers"]
     tiers = {"quick": {"runs": 12000, "budget_s": 60, "selftest_every": 50, "fresh_selftest": 8},
-             "thorough": {"runs": 1200000, "budget_s": 800, "selftest_every": 300, "fresh_selftest": 16}}
+             "thorough": {"runs": 8000000, "budget_s": 800, "selftest_every": 300, "fresh_selftest": 16}}
     rule = ("one run = a short history (roundtrip | sort | a sequence of 2..5 overlap calls on reused cache objects) on "
             "the instrumented module with garbage-filled np.empty buffers, team 1..16 and a seeded interleaving of the "
             "mask_to_coo loops; distinct = distinct (scenario, input digest, team); non-trivial = at least two selected "
